@@ -269,7 +269,7 @@ func (w *walker) walk(stmts []ast.Stmt, lo, hi token.Pos, guards []guard) {
 	}
 }
 
-func (w *walker) line(p token.Pos) int { return w.fset.Position(p).Line }
+func (w *walker) line(p token.Pos) int { return w.fset.PositionFor(p, false).Line }
 
 func (w *walker) comment(c *ast.Comment, guards []guard) {
 	t := strings.TrimSpace(strings.TrimPrefix(c.Text, "//"))
